@@ -10,7 +10,7 @@ from pmc.refs import dyad as rd
 
 PROPERTY = 'C15'
 RULE = ("explicit-state BFS over DyadCarrier operation sequences: initial states {empty with shape, rank-1 real, rank-2 "
-        "real, rank-1 complex, mixed real/complex, block-constructed} x shapes (3,2),(2,2),(2,3); 30 state-changing "
+        "real, rank-1 complex, mixed real/complex, block-constructed, built from all-zero vectors without shape=} x shapes (3,2),(2,2),(2,3); 30 state-changing "
         "operations (+,- with real/complex/empty carriers from both sides, unary +-, +=, -=, scalar products from both "
         "sides incl. 0 and 1j, matrix products from both sides incl. complex and rectangular, T, conj, real, imag, copy, "
         "basic/stepped/fancy slicing, zeroing rows/columns); at each new state ~27 observations (todense, shape, dtype "
@@ -21,7 +21,7 @@ ASSUMPTIONS = ["an exactly-zero result may be real-typed even where numpy would 
                "zero dyads by design)",
                "operand tables are fixed generic numbers (fractional parts of scaled square roots of primes)"]
 
-INITS = ['empty', 'r1', 'r2', 'c1', 'mix', 'blk']
+INITS = ['empty', 'r1', 'r2', 'c1', 'mix', 'blk', 'zero_u', 'zero_v', 'zero_mixed', 'blk_cancel']
 SHAPES = [(3, 2), (2, 2), (2, 3)]
 
 
@@ -33,6 +33,18 @@ def make_init(name, shape, seed):
         U = np.stack([p[0][0], p[1][0]])
         V = np.stack([p[0][1], p[1][1]])
         return DC(U, V), np.outer(U.sum(0), V.sum(0))
+    if name in ('zero_u', 'zero_v', 'zero_mixed', 'blk_cancel'):
+        # constructed from vectors WITHOUT shape=: every dyad has an all-zero u or v, the matrix is an (r, c) zero matrix
+        p = rd.dyads('r2', r, c, seed)
+        if name == 'zero_u':
+            return DC(np.zeros(r), p[0][1].copy()), np.zeros((r, c))
+        if name == 'zero_v':
+            return DC([p[0][0].copy(), p[1][0].copy()], [np.zeros(c), np.zeros(c)]), np.zeros((r, c))
+        if name == 'zero_mixed':
+            return DC([np.zeros(r), p[1][0].copy()], [p[0][1].copy(), np.zeros(c)]), np.zeros((r, c))
+        U = np.stack([p[0][0], -p[0][0]])
+        V = np.stack([p[0][1], p[1][1]])
+        return DC(U, V), np.zeros((r, c))
     pairs = rd.dyads(name, r, c, seed)
     if not pairs:
         return DC(shape=(r, c)), np.zeros((r, c))
